@@ -7,7 +7,7 @@ from .. import common, meprogs, relmodel, templates
 from ..driver import HOLDS, INCONCLUSIVE, UNDECIDED, VIOLATION
 from ..prog import (Env, IllFormed, IllTyped, add_abstract_leaf, build, cols_of, fmt, from_jsonable, ops_of, pyeval, pytree, sem_seq, sem_tree,
                     to_jsonable)
-from ..symx import Skip, explore
+from ..symx import Skip, explore, zint
 from . import c14
 
 PID = "C03"
@@ -59,10 +59,116 @@ def programs(tier):
     return out
 
 
+def processed_programs(tier):
+    """Final operation applied (with the source engine preferred) to a tree that has already been processed, so that its
+    transfer carries a payload; the result is processed and executed again ("once processed, the same rows")."""
+    acts = meprogs.actions("full")
+    out = []
+    X = ("leaf", "X")
+    for pre in (X, ("sel", X, ("gt", meprogs.A, ("lit", "$k1")), None)):
+        x = ("xfer", pre, "it2")
+        mids = [x] + [n for n in (c14._apply(acts, l, x, None, 2) for l in ("calc d=a+b", "sort a", "proj -b", "sel a>k")) if n]
+        for mid in mids:
+            for lab in ("sel a>k", "proj a", "proj -b", "dedup", "sort -b,a", "sel b>sq a", "proj -d"):
+                for t, r in ((False, False), (True, False), (False, True)):
+                    n3 = c14._apply(acts, lab, mid, ("it1", True, t, r), 4)
+                    if n3:
+                        out.append(n3)
+    return out
+
+
 def shapes(tier, seed):
     progs = programs(tier)
     size = 50
-    return [{"progs": progs[i:i + size]} for i in range(0, len(progs), size)]
+    out = [{"progs": progs[i:i + size]} for i in range(0, len(progs), size)]
+    pp = processed_programs(tier)
+    out += [{"processed": pp[i:i + 12]} for i in range(0, len(pp), 12)]
+    return out
+
+
+def _run_processed(prog, env):
+    """-> (rows executed after processing the result, plain-root rows executed the same way)"""
+    from .. import symproc
+
+    db = symproc.SymDB(env)
+    log = []
+    proc = symproc.make_processor(db, log)
+    memo = {}
+    mid = build(prog[1], env, memo)
+    processed_mid = proc.process(mid)
+    memo[id(prog[1])] = processed_mid
+    res = build(prog, env, memo)
+    out = proc.process(res)
+    return [dict(r) for r in out.engine.execute(out)], str(res)
+
+
+def run_processed_shape(shape):
+    from lsst.daf.relation import ColumnError, EngineError, RelationalAlgebraError
+
+    tot = {"paths": 0, "queries": 0, "solver_s": 0.0, "obligations": 0, "discharged": 0, "inconclusive": 0}
+    functions = set()
+    vios = []
+    sample = None
+    for prog in shape["processed"]:
+        params, cons = meprogs.params_for(prog)
+        info = {}
+
+        def mk(ctx, vals=None):
+            env = Env(symbolic=ctx is not None)
+            rows = [{c: (ctx.int(f"X.{c}{i}") if ctx is not None else int(vals.get(f"X.{c}{i}", 0))) for c in "abc"} for i in range(N)]
+            env.add_iter_leaf("X", "abc", rows, engine="it1")
+            return env
+
+        def h(ctx, prog=prog, params=params, cons=cons, info=info):
+            env = mk(ctx)
+            templates.declare(ctx, env, params, cons)
+            try:
+                got, tree = _run_processed(prog, env)
+            except (EngineError,) as e:
+                raise Skip(f"EngineError: {str(e)[:60]}")
+            except (ColumnError, RelationalAlgebraError) as e:
+                return [("valid operation on a processed tree is accepted", False, {"exc": f"{type(e).__name__}: {e}"[:160]})]
+            except Exception as e:  # noqa: BLE001
+                return [("processed tree accepts the operation and executes", False, {"exc": f"{type(e).__name__}: {e}"[:160]})]
+            info.setdefault("tree", tree)
+            ref = sem_seq(prog, env)
+            gz = [{t.qualified_name: zint(v) for t, v in r.items()} for r in got]
+            return [("rows after processing == rows of root application", relmodel.seq_equals_list(ref, gz) if ref.ordered else
+                     relmodel.mset_equals_list(relmodel.unordered(ref), gz), {"tree": tree})]
+
+        res = explore(h, max_paths=1500, wall_s=90, profile=(sample is None))
+        for k in tot:
+            tot[k] += getattr(res, k)
+        functions |= res.functions
+        if sample is None and res.obligations:
+            sample = {"program (final call on an already processed tree)": fmt(prog), "tree": info.get("tree"), "paths": res.paths}
+        for cx in res.cex[:1]:
+            m = cx["model"]
+            env = mk(None, m)
+            env.bind = templates.bind_concrete(params, m)
+            rows = [{c: int(m.get(f"X.{c}{i}", 0)) for c in "abc"} for i in range(N)]
+            try:
+                got, tree = _run_processed(prog, env)
+                got = [{t.qualified_name: v for t, v in r.items()} for r in got]
+                exp = pyeval(prog, {"X": rows}, env.bind, env.tags)
+                bad = None if (got == exp or ("dedup" in ops_of(prog) and common.canon(got) == common.canon(exp))) else f"rows-differ: expected {exp} observed {got} tree {tree}"
+            except Exception as e:  # noqa: BLE001
+                bad = f"raises {type(e).__name__}: {e}"[:200]
+            if bad is None:
+                return {"status": "harness-error", "detail": f"counterexample does not reproduce: processed {fmt(prog)} {cx['info']}", **tot}
+            vios.append({"site": f"processed:{_site(prog)}/{bad.split(':')[0]}", "summary": f"final call on a processed tree: {fmt(prog)} X={rows}: {bad}",
+                         "replay": {"processed": True, "prog": to_jsonable(prog), "model": {k: v for k, v in m.items()}, "symptom": bad.split(':')[0]}})
+    out = dict(tot)
+    out["functions"] = sorted(functions)
+    out["shape"] = f"processed: {fmt(shape['processed'][0])} (+{len(shape['processed']) - 1} more)"
+    out["sample"] = sample or {"note": "batch rejected"}
+    if vios:
+        out["status"], out["violations"] = VIOLATION, vios
+    elif tot["inconclusive"]:
+        out["status"], out["detail"] = INCONCLUSIVE, "budget"
+    else:
+        out["status"] = HOLDS
+    return out
 
 
 def make_env(ctx, symbolic=True, leaves=("X", "S", "Y", "T", "Z", "U")):
@@ -159,6 +265,8 @@ def control_problem(prog, before, rel):
 def run_shape(shape, tier):
     from lsst.daf.relation import ColumnError, EngineError, RelationalAlgebraError
 
+    if shape.get("processed"):
+        return run_processed_shape(shape)
     tot = {"paths": 0, "queries": 0, "solver_s": 0.0, "obligations": 0, "discharged": 0, "inconclusive": 0}
     functions = set()
     vios = []
@@ -324,6 +432,9 @@ def concrete_check(prog, rows, bind):
 
 def replay(v):
     r = v["replay"]
+    if r.get("processed"):
+        out = run_processed_shape({"processed": [from_jsonable(r["prog"])]})
+        return out["status"] == VIOLATION, str(out.get("violations", [{}])[0].get("summary", "agrees"))
     prog = from_jsonable(r["prog"])
     fails, symptom, detail = concrete_check(prog, r["rows"], r["bind"])
     return fails and symptom == r["symptom"], f"{fmt(prog)}: {symptom} {detail}"
